@@ -150,6 +150,8 @@ pub fn plan(p: u32, tier: &str) -> Vec<Run> {
             add(s4d2ff(), families::slots(4));
             add(late("latepair", true), families::late_pair());
             add(late("bigshapes", true), families::big_shapes());
+            add(late("ephtrees", true), families::eph_trees());
+            add(late("ephtrees3", true), families::eph_trees3());
             add(chains(true), families::chains(6));
             let mut ig = s("S3D2-ignore", 2, m);
             ig.faults = vec![true, false];
@@ -199,6 +201,8 @@ pub fn plan(p: u32, tier: &str) -> Vec<Run> {
             add(late3u(1), families::late3xu_oe());
             add(late("latepair", true), families::late_pair());
             add(late("bigshapes", true), families::big_shapes());
+            add(late("ephtrees", true), families::eph_trees());
+            add(late("ephtrees3", true), families::eph_trees3());
             add(chains(true), families::chains(6));
             add(shapes_spec("eph-shapes-D2", 2, false), shapes_named(&eph_shapes));
             if thorough {
@@ -233,6 +237,8 @@ pub fn plan(p: u32, tier: &str) -> Vec<Run> {
             add(late("late2x", true), families::late_gadget(2, true));
             add(late("latepair", true), families::late_pair());
             add(late("bigshapes", true), families::big_shapes());
+            add(late("ephtrees", true), families::eph_trees());
+            add(late("ephtrees3", true), families::eph_trees3());
             add(chains(true), families::chains(6));
             add(rename("rename-prod", Conv::Parts, Cmp::Prod), families::rename_opts(true, Kind::O, false));
             add(rename("rename-test", Conv::JobIds, Cmp::Plain), families::rename_opts(false, Kind::O, false));
@@ -301,6 +307,8 @@ pub fn plan(p: u32, tier: &str) -> Vec<Run> {
             add(late3u(2), families::late3xu_oe());
             add(late("latepair", true), families::late_pair());
             add(late("bigshapes", true), families::big_shapes());
+            add(late("ephtrees", true), families::eph_trees());
+            add(late("ephtrees3", true), families::eph_trees3());
             add(chains(true), families::chains(6));
             let mut o = s("S3D2-orders", 2, m);
             o.orders = Orders::AllNodes;
@@ -342,6 +350,8 @@ pub fn plan(p: u32, tier: &str) -> Vec<Run> {
             add(late3u(2), families::late3xu_oe());
             add(late("latepair", true), families::late_pair());
             add(late("bigshapes", true), families::big_shapes());
+            add(late("ephtrees", true), families::eph_trees());
+            add(late("ephtrees3", true), families::eph_trees3());
             add(chains(true), families::chains(6));
             add(shapes_spec("shapes-D2", 2, false), families::shapes(true));
             add(rename("rename-prod", Conv::Parts, Cmp::Prod), families::rename_opts(false, Kind::O, false));
@@ -379,6 +389,8 @@ pub fn plan(p: u32, tier: &str) -> Vec<Run> {
             add(late3u(2), families::late3xu_oe());
             add(late("latepair", true), families::late_pair());
             add(late("bigshapes", true), families::big_shapes());
+            add(late("ephtrees", true), families::eph_trees());
+            add(late("ephtrees3", true), families::eph_trees3());
             add(chains(true), families::chains(6));
             add(s("S3D2-volatile", 2, m), families::slots_volatile(3));
             add(shapes_spec("shapes-D2", 2, false), families::shapes(true));
@@ -452,6 +464,8 @@ pub fn plan(p: u32, tier: &str) -> Vec<Run> {
             add(late("late2x", true), families::late_gadget(2, true));
             add(late("latepair", true), families::late_pair());
             add(late("bigshapes", true), families::big_shapes());
+            add(late("ephtrees", true), families::eph_trees());
+            add(late("ephtrees3", true), families::eph_trees3());
             add(chains(true), families::chains(6));
             add(shapes_spec("shapes-D1", 1, false), families::shapes(true));
             if thorough {
@@ -539,6 +553,8 @@ pub fn plan(p: u32, tier: &str) -> Vec<Run> {
             add(late3u(1), families::late3xu_oe());
             add(late("latepair", true), families::late_pair());
             add(late("bigshapes", true), families::big_shapes());
+            add(late("ephtrees", true), families::eph_trees());
+            add(late("ephtrees3", true), families::eph_trees3());
             add(chains(true), families::chains(6));
             add(shapes_spec("shapes-D2", 2, false), families::shapes(true));
             if thorough {
@@ -586,6 +602,8 @@ pub fn plan(p: u32, tier: &str) -> Vec<Run> {
             add(few(late("late2x-ff-orders-few", false)), families::late_gadget(2, true));
             add(few(late("latepair-ff-orders-few", false)), families::late_pair());
             add(few(late("bigshapes-ff-orders-few", false)), families::big_shapes());
+            add(few(late("ephtrees-ff-orders-few", false)), families::eph_trees());
+            add(few(late("ephtrees3-ff-orders-few", false)), families::eph_trees3());
             add(few(chains(false)), families::chains(6));
             if thorough {
                 let mut oa = s("S3D2-orders-all", 2, m);
@@ -656,6 +674,8 @@ pub fn plan(p: u32, tier: &str) -> Vec<Run> {
             add(late3u(2), families::late3xu_oe());
             add(late("latepair", true), families::late_pair());
             add(late("bigshapes", true), families::big_shapes());
+            add(late("ephtrees", true), families::eph_trees());
+            add(late("ephtrees3", true), families::eph_trees3());
             add(chains(true), families::chains(6));
             add(s("S3D2-volatile", 2, m), families::slots_volatile(3));
             add(shapes_spec("shapes-D2", 2, false), families::shapes(true));
@@ -1065,6 +1085,8 @@ pub fn cmd_run(args: &[String]) -> i32 {
         "late3xu-OE" => families::late3xu_oe(),
         "bigshapes" => families::big_shapes(),
         "latepair" => families::late_pair(),
+        "ephtrees" => families::eph_trees(),
+        "ephtrees3" => families::eph_trees3(),
         "chains5" => families::chains(5),
         "chains6" => families::chains(6),
         _ => {
